@@ -26,7 +26,7 @@ MC = {"quick": [("MC_System", "MC_System.cfg", 4, {"SYS_BASE": str(BASEDIR / f"{
       "thorough": [("MC_System", "MC_System_thorough.cfg", 8, {"SYS_BASE": str(BASEDIR / f"{c}.tlc.json")}) for c in BASES]}
 TRACE = ("Trace_System", "Trace_System.cfg")
 REQUIRED = ["Access", "Copy", "MakeMask", "SaveMask", "LoadMask", "ApplyMask", "SelectVariables", "Mutate", "Save", "Open",
-            "Query", "SelectCell", "Triangulate", "triangulate-derived", "Extract", "extract-error", "extract-drop", "extract-fill", "extract-with-miss",
+            "Query", "SelectCell", "Triangulate", "triangulate-derived", "Export", "export-derived", "Extract", "extract-error", "extract-drop", "extract-fill", "extract-with-miss",
             "extract-on-derived", "extract-after-mutation", "query-clipped-away", "query-on-derived", "cell-of-derived",
             "derived-view", "clip-of-clip", "clip-after-mutation", "reopen-clipped", "mask-reloaded", "mask-on-other-dataset"]
 RULE = ("one case = one behaviour of spec/EmsSystem.tla (depth 8, TLC -simulate) on a base dataset of a detectable convention: "
@@ -100,7 +100,8 @@ def cases(tier: str, seed: int) -> list[dict]:
                       {"a": "Extract", "obj": 3, "cells": [valid[-1], valid[1], valid[0]], "policy": "error"},
                       {"a": "Extract", "obj": 4, "cells": [valid[2], valid[0], valid[-1]], "policy": "fill"},
                       {"a": "Extract", "obj": 1, "cells": [valid[-1], valid[0]], "policy": "error"},
-                      {"a": "Triangulate", "obj": 4}, {"a": "Triangulate", "obj": 1}]},
+                      {"a": "Triangulate", "obj": 4}, {"a": "Triangulate", "obj": 1},
+                      {"a": "Export", "obj": 3}, {"a": "Export", "obj": 5}, {"a": "Export", "obj": 1}]},
             # select variables, then clip the subset with a mask made on the original
             {"hist": [{"a": "SelectVariables", "obj": 1, "names": names[:1]}, {"a": "MakeMask", "obj": 1, "F": valid[-2:]},
                       {"a": "ApplyMask", "obj": 2, "mask": 1}, {"a": "Access", "obj": 2}, {"a": "Copy", "obj": 3},
@@ -239,6 +240,11 @@ def execute(case: dict) -> dict:
                             a_["data"] = clipdrv.proj_var_values(specs[n], r[n])
                             cell.append(a_)
                     obs["cell"] = cell
+                elif a == "Export":
+                    d = objs[e["obj"] - 1]
+                    conv_id(d.ems)
+                    r_ = CD.export_features(w, d, "geojson", str(work / f"export{k}" / "cells.geojson"))
+                    obs["features"] = [{"linear": f["linear"], "coords": f["coords"]} for f in r_["features"]]
                 elif a == "Triangulate":
                     from emsarray.operations.triangulate import triangulate_dataset
                     from ..project import as_int
@@ -287,6 +293,8 @@ def execute(case: dict) -> dict:
                 e["F"] = sorted(e["F"])
             if "names" in e:
                 e["names"] = sorted(e["names"])
+            if a == "Export":
+                obs.setdefault("features", [])
             if a == "Triangulate":
                 obs.setdefault("tri", {"vertices": [], "triangles": [], "cells": []})
             if a == "Extract":
